@@ -70,7 +70,7 @@ theorem scr_ret_end {s : KS} {a : A} {e : EvId} {pr : ProcRec St} (h : KI (some 
   have hne : e ≠ 2 := ne_of_cbs c2 hpe.2.1 (by simp)
   refine ⟨⟨?_, ?_⟩, v, ?_⟩
   · refine h.k.finish pt htag ?_ rfl rfl rfl rfl rfl rfl rfl rfl
-      (k1 (by omega) (by simpa using ProcTag.ne pt0 pt (by omega))) ?_
+      (k1 (by omega) (by simp)) ?_
       (fun seq hs => k4 seq hs (by omega)
         (by have := ProcTag.ne (show ProcTag s (a.tmp seq) (2 + seq) from h.k.ptm seq hs) pt (by omega)
             simpa [kernOf] using this))
